@@ -4,6 +4,7 @@
 EXTENDS EchHello, Json
 
 AllOuters == {"O1", "O2", "O3", "O4"}
+Outers5 == AllOuters \cup {"O5"}    \* with the duplicated-type layout (reconstruction only: a repeated reference is legal there)
 AllInners == {"I1", "I2", "I3", "I4", "I5", "I6", "I7"}
 O12 == {"O1", "O2"}
 I12 == {"I1", "I3"}
